@@ -18,8 +18,9 @@ from __future__ import annotations
 import ast
 from typing import Dict, List, Optional, Sequence, Tuple
 
-from engines import absdom, pyfacts as pf
+from engines import absdom, c1516facts as cf, pyfacts as pf
 from engines.common import AnalysisError, Ctx, short
+from engines.inline import inline_methods
 
 META = dict(
     category='other',
@@ -63,10 +64,14 @@ def _version_atom(a: ast.AST, v: int) -> Optional[bool]:
 
 
 def _strip(e: ast.AST) -> ast.AST:
-    """Drop int()/bool() coercions."""
-    while isinstance(e, ast.Call) and isinstance(e.func, ast.Name) and e.func.id in ('int', 'bool') and len(e.args) == 1:
-        e = e.args[0]
-    return e
+    """Drop int()/bool() coercions (also written `1 if x else 0`)."""
+    while True:
+        if isinstance(e, ast.Call) and isinstance(e.func, ast.Name) and e.func.id in ('int', 'bool') and len(e.args) == 1:
+            e = e.args[0]
+        elif isinstance(e, ast.IfExp) and _const_truth(e.body) is True and _const_truth(e.orelse) is False and isinstance(e.body, ast.Constant):
+            e = e.test
+        else:
+            return e
 
 
 def _spec_get_key(e: ast.AST, spec: str) -> Optional[str]:
@@ -77,13 +82,47 @@ def _spec_get_key(e: ast.AST, spec: str) -> Optional[str]:
     return None
 
 
+_FLAG_REPORTED: set = set()
+_FLAG_WRONG: Dict[int, Tuple[str, int]] = {}  # id(compare) -> (key, a list length at which the flag is not `len > 0`)
+
+
 def _has_flag_key(e: ast.AST, spec: str) -> Optional[str]:
-    """len(spec.get('k', [])) > 0  ->  k"""
-    e = _strip(e)
-    if isinstance(e, ast.Compare) and len(e.ops) == 1 and isinstance(e.ops[0], (ast.Gt, ast.NotEq)) and isinstance(e.comparators[0], ast.Constant) and e.comparators[0].value == 0 \
+    """len(spec.get('k', [])) > 0   |   != 0   |   >= 1   |   bool(spec.get('k'))   |   1 if spec.get('k') else 0      ->  k"""
+    coerced = False
+    while True:
+        if isinstance(e, ast.Call) and isinstance(e.func, ast.Name) and e.func.id in ('int', 'bool') and len(e.args) == 1:
+            coerced = coerced or e.func.id == 'bool'
+            e = e.args[0]
+        elif isinstance(e, ast.IfExp) and isinstance(e.body, ast.Constant) and _const_truth(e.body) is True and _const_truth(e.orelse) is False:
+            coerced, e = True, e.test
+        else:
+            break
+    if isinstance(e, ast.Compare) and len(e.ops) == 1 and isinstance(e.comparators[0], ast.Constant) \
             and isinstance(e.left, ast.Call) and pf.dotted(e.left.func) == 'len' and len(e.left.args) == 1:
-        return _spec_get_key(e.left.args[0], spec)
+        op, c = e.ops[0], e.comparators[0].value
+        fn = {ast.Gt: lambda n: n > c, ast.GtE: lambda n: n >= c, ast.NotEq: lambda n: n != c, ast.Lt: lambda n: n < c, ast.LtE: lambda n: n <= c, ast.Eq: lambda n: n == c}.get(type(op))
+        if fn is None or not isinstance(c, int):
+            return None
+        wrong = [n for n in range(0, 4) if bool(fn(n)) != (n > 0)]
+        k = _spec_get_key(e.left.args[0], spec)
+        if wrong and k is not None:
+            _FLAG_WRONG[id(e)] = (k, wrong[0])
+        return k
+    if coerced:
+        # truthiness of the (optional) list itself
+        if isinstance(e, ast.Call) and len(e.args) == 2 and _const_truth(e.args[1]) is not False:
+            return None
+        return _spec_get_key(e, spec)
     return None
+
+
+def _report_flag(ctx: Ctx, e: ast.AST, k: str, fname: str, what: str) -> None:
+    for x in ast.walk(e):
+        if id(x) in _FLAG_WRONG and id(x) not in _FLAG_REPORTED:
+            _FLAG_REPORTED.add(id(x))
+            n_ = _FLAG_WRONG[id(x)][1]
+            ctx.bad('R1', f'{F}::{CLS}.{fname}::has:{k} flag', f'the {what} flag `{short(pf.nsrc(e), 60)}` is not `len({k}) > 0`: for a job with {n_} {k} entr{"y" if n_ == 1 else "ies"} it is '
+                    f'{not n_ > 0}, so the {k} flag read back differs from the submitted spec', pf.load(F).path, getattr(e, 'lineno', 0))
 
 
 class Path:
@@ -145,6 +184,7 @@ def _writer_table(ctx: Ctx, fn: pf.FuncDef, spec: str, v: int) -> Tuple[str, Lis
             k = _has_flag_key(e, spec)
             if k is not None:
                 t.append(f'has:{k}')
+                _report_flag(ctx, e, k, 'db_spec', 'stored')
             elif isinstance(e, ast.Name):
                 t.append(e.id)
                 defs.setdefault(e.id, []).append(p.origin(e.id))
@@ -174,6 +214,7 @@ def _reader_access(ctx: Ctx, fn: pf.FuncDef, spec: str, v: int) -> Tuple[str, ob
             k = _has_flag_key(rv, spec)
             if k is not None:
                 found = ('flag', k)
+                _report_flag(ctx, rv, k, fn.name, 'returned')
             else:
                 for n in nodes:
                     kk = _spec_get_key(n, spec)
@@ -294,6 +335,7 @@ def _reader_record(ctx: Ctx, d: ast.Dict, var: str, who: str) -> Dict[str, int]:
 
 def _find_record_list(e: ast.AST) -> Tuple[Optional[ast.List], Optional[str]]:
     """`[a, b, c]` or `[[a, b] for x in xs]` -> (inner list, comprehension variable)"""
+    e = cf.unroll_literal_comprehension(e)  # [src.get(k) for k in ('a', 'b')]  ->  [src.get('a'), src.get('b')]
     if isinstance(e, ast.List):
         return e, None
     if isinstance(e, ast.ListComp) and isinstance(e.elt, ast.List) and len(e.generators) == 1 and isinstance(e.generators[0].target, ast.Name):
@@ -431,72 +473,307 @@ def _lin(e: ast.AST, var: str) -> Tuple[int, int]:
     raise AnalysisError(f'shift amount `{pf.nsrc(e)}` is not linear in {var}')
 
 
+_DEDUP_CALLS = {'set', 'frozenset', 'dict.fromkeys'}
+_ORDER_CALLS = {'sorted', 'list', 'tuple', 'reversed', 'iter'}
+
+
+def _peel(fn: pf.FuncDef, e: ast.AST) -> Tuple[ast.AST, bool]:
+    """Follow single-definition locals and re-ordering / de-duplicating wrappers down to the collection underneath: (base, deduplicated)."""
+    params = {a.arg for a in fn.args.posonlyargs + fn.args.args + fn.args.kwonlyargs}
+    dedup = False
+    for _ in range(10):
+        if isinstance(e, ast.Name) and e.id not in params:
+            d = pf.single_def(fn, e.id)
+            if d is None or not isinstance(d, ast.expr):
+                break
+            e = d
+        elif isinstance(e, ast.Call) and len(e.args) == 1 and pf.dotted(e.func) in _DEDUP_CALLS and not e.keywords:
+            dedup, e = True, e.args[0]
+        elif isinstance(e, ast.Call) and len(e.args) == 1 and pf.dotted(e.func) in _ORDER_CALLS and all(k.arg in ('key', 'reverse') for k in e.keywords):
+            e = e.args[0]
+        elif isinstance(e, ast.SetComp) and len(e.generators) == 1 and not e.generators[0].ifs and pf.nsrc(e.elt) == pf.nsrc(e.generators[0].target):
+            dedup, e = True, e.generators[0].iter
+        else:
+            break
+    return e, dedup
+
+
+def _upper_bound(test: ast.AST, var_texts: Sequence[str]) -> Optional[int]:
+    """Largest value of the variable allowed by an asserted comparison: `v < N`, `v <= N`, `N > v`, `0 < v < N`, conjunctions."""
+    if isinstance(test, ast.BoolOp) and isinstance(test.op, ast.And):
+        bs = [b for b in (_upper_bound(v, var_texts) for v in test.values) if b is not None]
+        return min(bs) if bs else None
+    if not isinstance(test, ast.Compare):
+        return None
+    terms = [test.left] + list(test.comparators)
+    best = None
+    for (a, op, b) in zip(terms, test.ops, terms[1:]):
+        c = None
+        if pf.nsrc(a) in var_texts and isinstance(b, ast.Constant) and isinstance(b.value, int):
+            c = b.value - 1 if isinstance(op, ast.Lt) else b.value if isinstance(op, ast.LtE) else None
+        elif pf.nsrc(b) in var_texts and isinstance(a, ast.Constant) and isinstance(a.value, int):
+            c = a.value - 1 if isinstance(op, ast.Gt) else a.value if isinstance(op, ast.GtE) else None
+        if c is not None:
+            best = c if best is None else min(best, c)
+    return best
+
+
+_REDUCE_OPS = {'operator.or_': 'or', 'or_': 'or', 'int.__or__': 'or', 'operator.ior': 'or', 'operator.add': 'add', 'add': 'add', 'int.__add__': 'add',
+               'operator.iadd': 'add', 'operator.xor': 'xor', 'xor': 'xor', 'int.__xor__': 'xor'}
+_BINOPS = {ast.BitOr: 'or', ast.Add: 'add', ast.BitXor: 'xor'}
+
+
+class _Enc:
+    shift: ast.BinOp
+    idx: str            # symbol the shift amount is linear in
+    combiner: str       # 'or' | 'add' | 'xor' | 'overwrite'
+    comb_src: str
+    comb_line: int
+    dedup: bool
+    src_ok: bool
+    src_text: str
+    bound: Optional[int]
+
+
+def _index_symbol(ctx: Ctx, sh: ast.BinOp, region: str, mapname: str, local_defs: Dict[str, List[ast.AST]], who: str) -> Tuple[ast.AST, str, bool, str]:
+    """(shift amount with the index replaced by one symbol, symbol, index is MAP[region], text of the index source)."""
+    want = f'{mapname}[{region}]'
+    inline = [n for n in ast.walk(sh.right) if isinstance(n, ast.Subscript) and pf.nsrc(n) == want]
+    if inline:
+        import copy
+
+        class S(ast.NodeTransformer):
+            def visit_Subscript(self, node: ast.Subscript):
+                if pf.nsrc(node) == want:
+                    return ast.Name(id='idx__', ctx=ast.Load())
+                return self.generic_visit(node)
+        amount = S().visit(copy.deepcopy(sh.right))
+        ctx.need(pf.names_in(amount) == {'idx__'}, f'{who}: shift amount `{pf.nsrc(sh.right)}`')
+        return amount, 'idx__', True, want
+    names = sorted(pf.names_in(sh.right))
+    ctx.need(len(names) == 1, f'{who}: shift amount `{pf.nsrc(sh.right)}`')
+    widx = names[0]
+    if widx == region and region not in local_defs:
+        # the loop variable itself is shifted: it is a region NAME unless the iterable already holds ids
+        return sh.right, widx, False, region
+    d = local_defs.get(widx, [])
+    ok = len(d) == 1 and pf.nsrc(d[0]) == want
+    return sh.right, widx, ok, (pf.nsrc(d[0]) if d else '?')
+
+
+def _encoder(ctx: Ctx, m: pf.Module, w: pf.FuncDef, wp: List[str]) -> Tuple[_Enc, ast.AST]:
+    who = 'regions_to_bits_rep'
+    enc = _Enc()
+    loops = [n for n in pf.walk_shallow(w) if isinstance(n, (ast.For, ast.While))]
+    rets = [n for n in pf.walk_shallow(w) if isinstance(n, ast.Return)]
+    ctx.need(len(rets) == 1 and rets[0].value is not None, f'{who}: expected one `return <value>`')
+    if len(loops) == 1 and isinstance(loops[0], ast.For):
+        lp = loops[0]
+        base, enc.dedup = _peel(w, lp.iter)
+        ctx.need(pf.nsrc(base) == wp[0] and isinstance(lp.target, ast.Name), f'{who}: loop over the selected regions not found')
+        region = lp.target.id  # type: ignore[union-attr]
+        shifts = [n for n in ast.walk(lp) if isinstance(n, ast.BinOp) and isinstance(n.op, ast.LShift)]
+        ctx.need(len(shifts) == 1, f'{who}: {len(shifts)} left shifts')
+        sh = shifts[0]
+        ctx.need(isinstance(sh.left, ast.Constant) and sh.left.value == 1, f'{who}: `{pf.nsrc(sh)}` does not shift the constant 1')
+        local_defs: Dict[str, List[ast.AST]] = {}
+        for s_ in lp.body:
+            if isinstance(s_, ast.Assign) and len(s_.targets) == 1 and isinstance(s_.targets[0], ast.Name):
+                local_defs.setdefault(s_.targets[0].id, []).append(s_.value)
+        amount, enc.idx, enc.src_ok, enc.src_text = _index_symbol(ctx, sh, region, wp[1], local_defs, who)
+        enc.shift = sh
+        acc = [s_ for s_ in ast.walk(lp) if isinstance(s_, (ast.AugAssign, ast.Assign)) and any(x is sh for x in ast.walk(s_))]
+        ctx.need(len(acc) == 1, f'{who}: accumulation statement not found')
+        st = acc[0]
+        enc.comb_src, enc.comb_line = pf.nsrc(st), st.lineno
+        if isinstance(st, ast.AugAssign):
+            res = pf.nsrc(st.target)
+            enc.combiner = _BINOPS.get(type(st.op), 'other') if st.value is sh else 'other'
+        else:
+            res = pf.nsrc(st.targets[0])
+            v = st.value
+            if isinstance(v, ast.BinOp) and res in (pf.nsrc(v.left), pf.nsrc(v.right)) and (v.left is sh or v.right is sh):
+                enc.combiner = _BINOPS.get(type(v.op), 'other')
+            else:
+                enc.combiner = 'overwrite'
+        init = [s_ for s_ in w.body if isinstance(s_, ast.Assign) and pf.nsrc(s_.targets[0]) == res]
+        ctx.need(pf.nsrc(rets[0].value) == res and len(init) == 1 and pf.nsrc(init[0].value) == '0', f'{who}: `result = 0 ... return result` not recognised')
+        ctx.need(enc.combiner != 'other', f'{who}: accumulation `{enc.comb_src}` not recognised')
+        enc.bound = None
+        texts = [enc.idx] if enc.idx != 'idx__' else [enc.src_text]
+        for s_ in lp.body:
+            if isinstance(s_, ast.Assert) and s_.lineno < st.lineno:
+                b = _upper_bound(s_.test, texts)
+                if b is not None:
+                    enc.bound = b if enc.bound is None else min(enc.bound, b)
+        return enc, amount
+    ctx.need(not loops, f'{who}: loop over the selected regions not found')
+    # expression form:  return sum(1 << s(idx) for idx in IDS)   /   functools.reduce(operator.or_, (...), 0)
+    rv = pf.resolve_expr(w, rets[0].value)
+    ctx.need(isinstance(rv, ast.Call), f'{who}: `{short(pf.nsrc(rv), 60)}` is neither an accumulating loop nor sum(...) / reduce(...)')
+    fname = pf.dotted(rv.func)  # type: ignore[union-attr]
+    args = list(rv.args)  # type: ignore[union-attr]
+    if fname == 'sum' and 1 <= len(args) <= 2:
+        ctx.need(len(args) == 1 or pf.nsrc(args[1]) == '0', f'{who}: sum start value `{pf.nsrc(args[-1])}`')
+        enc.combiner, gen = 'add', args[0]
+    elif fname in ('functools.reduce', 'reduce') and 2 <= len(args) <= 3:
+        ctx.need(len(args) == 2 or pf.nsrc(args[2]) == '0', f'{who}: reduce initial value `{pf.nsrc(args[-1])}`')
+        op = args[0]
+        comb = _REDUCE_OPS.get(pf.dotted(op) or '')
+        if comb is None and isinstance(op, ast.Lambda) and len(op.args.args) == 2 and isinstance(op.body, ast.BinOp) \
+                and {pf.nsrc(op.body.left), pf.nsrc(op.body.right)} == {a.arg for a in op.args.args}:
+            comb = _BINOPS.get(type(op.body.op))
+        ctx.need(comb is not None, f'{who}: reduce operator `{pf.nsrc(op)}` not recognised')
+        enc.combiner, gen = comb, args[1]  # type: ignore[assignment]
+    else:
+        raise AnalysisError(f'{who}: `{short(pf.nsrc(rv), 60)}` is neither an accumulating loop nor sum(...) / reduce(...)')
+    enc.comb_src, enc.comb_line = short(pf.nsrc(rv), 70), rv.lineno
+    gen = pf.resolve_expr(w, gen)
+    ctx.need(isinstance(gen, (ast.GeneratorExp, ast.ListComp)) and len(gen.generators) == 1 and not gen.generators[0].ifs and isinstance(gen.generators[0].target, ast.Name),
+             f'{who}: `{short(pf.nsrc(gen), 60)}` is not a plain comprehension of bit terms')
+    sh = gen.elt  # type: ignore[union-attr]
+    ctx.need(isinstance(sh, ast.BinOp) and isinstance(sh.op, ast.LShift) and isinstance(sh.left, ast.Constant) and sh.left.value == 1,
+             f'{who}: summed term `{pf.nsrc(sh)}` is not `1 << amount`')
+    enc.shift = sh  # type: ignore[assignment]
+    v = gen.generators[0].target.id  # type: ignore[union-attr]
+    it = gen.generators[0].iter  # type: ignore[union-attr]
+    base, d1 = _peel(w, it)
+    bound_iters = {pf.nsrc(it)}
+    if pf.nsrc(base) == wp[0]:
+        amount, enc.idx, enc.src_ok, enc.src_text = _index_symbol(ctx, sh, v, wp[1], {}, who)  # type: ignore[arg-type]
+        enc.dedup = d1
+        var_texts = [enc.src_text.replace(f'[{v}]', '[%s]')]
+    else:
+        ctx.need(isinstance(base, (ast.ListComp, ast.GeneratorExp, ast.SetComp)) and len(base.generators) == 1 and not base.generators[0].ifs
+                 and isinstance(base.generators[0].target, ast.Name), f'{who}: the summed collection `{short(pf.nsrc(base), 60)}` is not derived from {wp[0]} by a plain comprehension')
+        r_ = base.generators[0].target.id  # type: ignore[union-attr]
+        base2, d2 = _peel(w, base.generators[0].iter)  # type: ignore[union-attr]
+        ctx.need(pf.nsrc(base2) == wp[0], f'{who}: the ids are not computed from {wp[0]}')
+        enc.src_text = pf.nsrc(base.elt)  # type: ignore[union-attr]
+        enc.src_ok = enc.src_text == f'{wp[1]}[{r_}]'
+        enc.dedup = d1 or d2 or isinstance(base, ast.SetComp)
+        names = sorted(pf.names_in(sh.right))  # type: ignore[union-attr]
+        ctx.need(names == [v], f'{who}: shift amount `{pf.nsrc(sh.right)}`')  # type: ignore[union-attr]
+        amount, enc.idx = sh.right, v  # type: ignore[union-attr]
+        var_texts = ['%s']
+    # bound: assert all(<cmp> for u in <the same collection>) / assert max(<collection>) < N, before the return
+    enc.bound = None
+    for s_ in w.body:
+        if not (isinstance(s_, ast.Assert) and s_.lineno <= rets[0].lineno):
+            continue
+        t = s_.test
+        if isinstance(t, ast.Call) and pf.dotted(t.func) == 'all' and len(t.args) == 1 and isinstance(t.args[0], (ast.GeneratorExp, ast.ListComp)) \
+                and len(t.args[0].generators) == 1 and isinstance(t.args[0].generators[0].target, ast.Name) and not t.args[0].generators[0].ifs:
+            g = t.args[0].generators[0]
+            same = pf.nsrc(g.iter) in bound_iters or _peel(w, g.iter)[0] is base or (pf.nsrc(_peel(w, g.iter)[0]) == pf.nsrc(base))
+            if same:
+                b = _upper_bound(t.args[0].elt, [x % g.target.id for x in var_texts])  # type: ignore[union-attr]
+                if b is not None:
+                    enc.bound = b if enc.bound is None else min(enc.bound, b)
+        elif isinstance(t, ast.Compare) and var_texts == ['%s']:
+            for side in [t.left] + list(t.comparators):
+                if isinstance(side, ast.Call) and pf.dotted(side.func) == 'max' and len(side.args) == 1 and \
+                        (pf.nsrc(side.args[0]) in bound_iters or pf.nsrc(_peel(w, side.args[0])[0]) == pf.nsrc(base)):
+                    b = _upper_bound(t, [pf.nsrc(side)])
+                    if b is not None:
+                        enc.bound = b if enc.bound is None else min(enc.bound, b)
+    return enc, amount
+
+
 def _check_regions(ctx: Ctx) -> None:
     m = pf.load(FU)
     w = m.func('regions_to_bits_rep')
     wp = [a.arg for a in w.args.args]
     ctx.need(len(wp) == 2, f'regions_to_bits_rep parameters {wp}')
-    loops = [n for n in pf.walk_shallow(w) if isinstance(n, ast.For)]
-    ctx.need(len(loops) == 1 and pf.nsrc(loops[0].iter) == wp[0] and isinstance(loops[0].target, ast.Name), 'regions_to_bits_rep: loop over the selected regions not found')
-    region = loops[0].target.id  # type: ignore[union-attr]
-    shifts = [n for n in ast.walk(loops[0]) if isinstance(n, ast.BinOp) and isinstance(n.op, ast.LShift)]
-    ctx.need(len(shifts) == 1, f'regions_to_bits_rep: {len(shifts)} left shifts')
-    sh = shifts[0]
-    ctx.need(isinstance(sh.left, ast.Constant) and sh.left.value == 1, f'regions_to_bits_rep: `{pf.nsrc(sh)}` does not shift the constant 1')
-    idx_names = [n for n in pf.names_in(sh.right)]
-    ctx.need(len(idx_names) == 1, f'regions_to_bits_rep: shift amount `{pf.nsrc(sh.right)}`')
-    widx = idx_names[0]
-    d = [s.value for s in loops[0].body if isinstance(s, ast.Assign) and len(s.targets) == 1 and pf.nsrc(s.targets[0]) == widx]
+    enc, amount = _encoder(ctx, m, w, wp)
+    sh = enc.shift
     cons_w = f'{FU}::regions_to_bits_rep'
-    ok_src = len(d) == 1 and pf.nsrc(d[0]) == f'{wp[1]}[{region}]'
-    ctx.check(ok_src, 'R4', cons_w + '::bit index source', f'the bit index `{widx}` is `{pf.nsrc(d[0]) if d else "?"}`, not {wp[1]}[{region}]: the bit set does not identify the selected region',
+    ctx.check(enc.src_ok, 'R4', cons_w + '::bit index source', f'the bit index `{enc.idx}` is `{enc.src_text}`, not {wp[1]}[<selected region>]: the bit set does not identify the selected region',
               m.path, sh.lineno)
-    aw, bw = _lin(sh.right, widx)
-    # accumulation
-    acc = [s for s in ast.walk(loops[0]) if isinstance(s, (ast.AugAssign, ast.Assign)) and any(x is sh for x in ast.walk(s))]
-    ctx.need(len(acc) == 1, 'regions_to_bits_rep: accumulation statement not found')
-    st = acc[0]
-    if isinstance(st, ast.AugAssign):
-        is_or = isinstance(st.op, ast.BitOr) and st.value is sh
-        res = pf.nsrc(st.target)
+    aw, bw = _lin(amount, enc.idx)
+    # the encoder must be a homomorphism from SETS of regions: bits combined with an idempotent operator, or provably pairwise distinct terms
+    if enc.combiner == 'or':
+        ok_acc, why = True, ''
+    elif enc.combiner in ('add', 'xor') and enc.dedup:
+        ok_acc, why = True, ''
+        ctx.assume(f'{wp[1]} is injective (region_id is the primary key of `regions`): distinct region names have distinct bits')
+    elif enc.combiner == 'add':
+        ok_acc, why = False, (f'`{enc.comb_src}` ADDS the bit terms of a plain list: `+` is not idempotent, a region named twice (regions=["a", "a"], accepted by the validator: '
+                              f'listof(str_type)) gives 2 * (1 << id-1) = 1 << id, which carries into the neighbouring bit and decodes to a DIFFERENT region (or to none); '
+                              'combine with `|` or deduplicate (set(...)) first')
+    elif enc.combiner == 'xor':
+        ok_acc, why = False, (f'`{enc.comb_src}` XORs the bit terms of a plain list: a region named twice (regions=["a", "a"]) cancels out and the job is stored with an empty region set')
     else:
-        res = pf.nsrc(st.targets[0])
-        is_or = isinstance(st.value, ast.BinOp) and isinstance(st.value.op, ast.BitOr) and res in (pf.nsrc(st.value.left), pf.nsrc(st.value.right))
-    ctx.check(is_or, 'R4', cons_w + '::accumulate', f'`{pf.nsrc(st)}` does not OR the bit into the result: a region listed twice (regions=["a","a"]) carries into the next '
-              'region\'s bit, or earlier regions are overwritten', m.path, st.lineno)
-    rets = [n for n in pf.walk_shallow(w) if isinstance(n, ast.Return)]
-    init = [s for s in w.body if isinstance(s, ast.Assign) and pf.nsrc(s.targets[0]) == res]
-    ctx.need(len(rets) == 1 and rets[0].value is not None and pf.nsrc(rets[0].value) == res and len(init) == 1 and pf.nsrc(init[0].value) == '0',
-             'regions_to_bits_rep: `result = 0 … return result` not recognised')
-    # bound
-    bound = None
-    for s in loops[0].body:
-        if isinstance(s, ast.Assert) and isinstance(s.test, ast.Compare) and len(s.test.ops) == 1 and pf.nsrc(s.test.left) == widx \
-                and isinstance(s.test.comparators[0], ast.Constant) and isinstance(s.test.comparators[0].value, int) and s.lineno < st.lineno:
-            c = s.test.comparators[0].value
-            if isinstance(s.test.ops[0], ast.Lt):
-                bound = c - 1
-            elif isinstance(s.test.ops[0], ast.LtE):
-                bound = c
-    if bound is None:
-        ctx.bad('R4', cons_w + '::bit range', f'no `assert {widx} < N` before the shift: a region id above 63 produces a value that does not fit the signed BIGINT column '
+        ok_acc, why = False, f'`{enc.comb_src}` does not OR the bit into the result: earlier regions are overwritten'
+    ctx.check(ok_acc, 'R4', cons_w + '::accumulate', why, m.path, enc.comb_line, detail={'combiner': enc.combiner, 'deduplicated': enc.dedup})
+    if enc.bound is None:
+        ctx.bad('R4', cons_w + '::bit range', f'no `assert {enc.idx} < N` before the shift: a region id above 63 produces a value that does not fit the signed BIGINT column '
                 '(the INSERT fails or the set is truncated)', m.path, sh.lineno)
     else:
-        hi = aw * bound + bw
+        hi = aw * enc.bound + bw
         lo = aw * 1 + bw
         ctx.check(aw == 1 and 0 <= lo and hi <= 62, 'R4', cons_w + '::bit range',
-                  f'bit positions range over [{lo}, {hi}] for region ids 1..{bound}: ' + ('bit 63 and above does not fit a signed BIGINT' if hi > 62 else 'a negative shift raises ValueError for region id 1'),
+                  f'bit positions range over [{lo}, {hi}] for region ids 1..{enc.bound}: ' + ('bit 63 and above does not fit a signed BIGINT' if hi > 62 else 'a negative shift raises ValueError for region id 1'),
                   m.path, sh.lineno, detail={'bits': [lo, hi]})
-    # reader
+    _decoder(ctx, m, aw, bw, sh)
+
+
+def _seq_of_keys(fn: pf.FuncDef, e: ast.AST, mapname: str) -> Optional[str]:
+    """Is e a dense SEQUENCE of the mapping's region names (positions = ranks)?  Returns a description, else None."""
+    for _ in range(4):
+        if isinstance(e, ast.Name):
+            d = pf.single_def(fn, e.id)
+            if d is None or not isinstance(d, ast.expr):
+                return None
+            e = d
+        else:
+            break
+    if isinstance(e, ast.Call) and pf.dotted(e.func) in ('sorted', 'list', 'tuple') and len(e.args) == 1:
+        a = e.args[0]
+        if pf.nsrc(a) in (mapname, f'{mapname}.keys()'):
+            return short(pf.nsrc(e), 70)
+        if isinstance(a, (ast.GeneratorExp, ast.ListComp)):
+            return _seq_of_keys(fn, a, mapname)
+    if isinstance(e, (ast.ListComp, ast.GeneratorExp)) and len(e.generators) == 1:
+        g = e.generators[0]
+        it = g.iter
+        while isinstance(it, ast.Call) and pf.dotted(it.func) in ('sorted', 'list', 'tuple', 'reversed') and len(it.args) == 1:
+            it = it.args[0]
+        if pf.nsrc(it) == f'{mapname}.items()' and isinstance(g.target, ast.Tuple) and len(g.target.elts) == 2 and pf.nsrc(e.elt) == pf.nsrc(g.target.elts[0]):
+            return short(pf.nsrc(e), 70)
+        if pf.nsrc(it) in (mapname, f'{mapname}.keys()') and pf.nsrc(e.elt) == pf.nsrc(g.target):
+            return short(pf.nsrc(e), 70)
+    return None
+
+
+def _inverse_map(fn: pf.FuncDef, e: ast.AST, mapname: str) -> bool:
+    """Is e the dict id -> region name built from the mapping?"""
+    for _ in range(4):
+        if isinstance(e, ast.Name):
+            d = pf.single_def(fn, e.id)
+            if d is None or not isinstance(d, ast.expr):
+                return False
+            e = d
+    if isinstance(e, ast.DictComp) and len(e.generators) == 1 and not e.generators[0].ifs:
+        g = e.generators[0]
+        if pf.nsrc(g.iter) == f'{mapname}.items()' and isinstance(g.target, ast.Tuple) and len(g.target.elts) == 2:
+            return pf.nsrc(e.key) == pf.nsrc(g.target.elts[1]) and pf.nsrc(e.value) == pf.nsrc(g.target.elts[0])
+    return False
+
+
+def _decoder(ctx: Ctx, m: pf.Module, aw: int, bw: int, sh: ast.BinOp) -> None:
     r = m.func('regions_bits_rep_to_regions')
     rp = [a.arg for a in r.args.args]
     ctx.need(len(rp) == 2, f'regions_bits_rep_to_regions parameters {rp}')
-    loops = [n for n in pf.walk_shallow(r) if isinstance(n, ast.For)]
+    loops = [n for n in pf.walk_shallow(r) if isinstance(n, (ast.For, ast.While))]
     ctx.need(len(loops) == 1, 'regions_bits_rep_to_regions: loop not found')
     lp = loops[0]
     cons_r = f'{FU}::regions_bits_rep_to_regions'
+    if not (isinstance(lp, ast.For) and pf.nsrc(lp.iter) == f'{rp[1]}.items()'):
+        _decoder_by_position(ctx, m, r, rp, lp, aw, bw, sh)
+        return
     it = pf.nsrc(lp.iter)
-    if it == f'{rp[1]}.items()' and isinstance(lp.target, ast.Tuple) and len(lp.target.elts) == 2 and all(isinstance(x, ast.Name) for x in lp.target.elts):
+    if isinstance(lp.target, ast.Tuple) and len(lp.target.elts) == 2 and all(isinstance(x, ast.Name) for x in lp.target.elts):
         rkey, ridx = lp.target.elts[0].id, lp.target.elts[1].id  # type: ignore[union-attr]
     else:
         raise AnalysisError(f'regions_bits_rep_to_regions: loop `for {pf.nsrc(lp.target)} in {it}` is not over {rp[1]}.items()')
@@ -531,6 +808,370 @@ def _check_regions(ctx: Ctx) -> None:
             guarded = any(x is rs for x in ast.walk(tsrc)) or (isinstance(t, ast.Name) and any(
                 isinstance(s, ast.Assign) and pf.nsrc(s.targets[0]) == t.id and any(x is rs for x in ast.walk(s.value)) for s in lp.body))
     ctx.check(guarded, 'R4', cons_r + '::guard', 'the region is appended without testing its bit: every region is returned', m.path, apps[0].lineno)
+    # every known region is tested: the loop is not left early
+    exits = [n for n in ast.walk(lp) if isinstance(n, (ast.Break, ast.Return))]
+    par2 = {c: p for p in ast.walk(lp) for c in ast.iter_child_nodes(p)}
+    app_stmt = par2.get(apps[0])
+    app_block = next((blk for n in ast.walk(lp) for fld in ('body', 'orelse') for blk in [getattr(n, fld, None)] if isinstance(blk, list) and any(x is app_stmt for x in blk)), [])
+    after_append = [x for x in exits if any(x is y for y in app_block)]
+    ctx.need(not exits or after_append, f'regions_bits_rep_to_regions: the loop over the known regions is left early by `{pf.nsrc(exits[0]) if exits else ""}` (condition not analysed)')
+    ctx.check(not after_append, 'R4', cons_r + '::every region tested', 'the loop over the known regions stops right after the first selected region is appended: a job restricted to two regions '
+              '(bits 0b101) is read back with one', m.path, after_append[0].lineno if after_append else lp.lineno)
+
+
+def _decoder_by_position(ctx: Ctx, m: pf.Module, r: pf.FuncDef, rp: List[str], lp: ast.AST, aw: int, bw: int, sh: ast.BinOp) -> None:
+    """Decoders that enumerate BIT POSITIONS (walk the set bits / range(64)) instead of the known regions.  The position <-> region mapping must be the
+    inverse of the encoder's bit assignment (position = id + bw): looking the region up in a dense SEQUENCE of region names with an index that is a
+    function of the bit position alone assumes the ids are exactly 1..n."""
+    cons_r = f'{FU}::regions_bits_rep_to_regions'
+    bits, mapname = rp
+    apps = [n for n in ast.walk(lp) if isinstance(n, ast.Call) and isinstance(n.func, ast.Attribute) and n.func.attr == 'append']
+    ctx.need(len(apps) == 1 and len(apps[0].args) == 1, 'regions_bits_rep_to_regions: loop is not over the known regions and no single append was found')
+    look = apps[0].args[0]
+    look = pf.resolve_expr(r, look)
+    ctx.need(isinstance(look, ast.Subscript), f'regions_bits_rep_to_regions: appended `{short(pf.nsrc(look), 50)}` is not a lookup container[index]')
+    cont, key = look.value, look.slice  # type: ignore[union-attr]
+    deps = cf.depends_on(r, key, through_len=False)  # len(mapping) tells how many regions there are, not which ids
+    seq = _seq_of_keys(r, cont, mapname)
+    if seq is not None:
+        ctx.need(mapname not in deps, f'regions_bits_rep_to_regions: lookup index `{pf.nsrc(key)}` depends on the mapping')
+        ctx.bad('R4', cons_r + '::shift', f'the region of a set bit is looked up as `{short(pf.nsrc(look), 60)}`, where `{short(pf.nsrc(cont), 30)}` = `{seq}` is a dense sequence of the region names '
+                f'(positions 0..n-1 are RANKS) and the index `{pf.nsrc(key)}` is computed from the bit position alone; the encoder puts region id k at bit k{bw:+d}, so this is its inverse '
+                f'only if the ids are exactly 1..n. With regions {{"a": 1, "c": 3}} (AUTO_INCREMENT gaps arise from the start-up INSERT ... ON DUPLICATE KEY UPDATE and from deleted rows; the '
+                f'encoder only asserts id < 64) a job restricted to "c" is stored as 0b100 and decoded as position 2 of a 2-element list: IndexError / with {{"a": 1, "c": 3, "d": 4}} as "d"',
+                m.path, look.lineno, extra={'container': pf.nsrc(cont), 'index': pf.nsrc(key)})
+        return
+    raise AnalysisError(f'regions_bits_rep_to_regions: decoder enumerates bit positions and looks regions up in `{short(pf.nsrc(cont), 40)}`: position <-> id correspondence not recognised')
+
+
+# --------------------------------------------------------------------------------------
+# R5: presence, not truthiness
+# --------------------------------------------------------------------------------------
+# Value descriptors (what a sub-expression of the writer / a reader may evaluate to):
+#   ('spec',)  the job spec            ('f', *path)  a field of the job spec, e.g. ('f', 'resources', 'preemptible'), ('f', 'secrets', '[]', 'mount_in_copy')
+#   ('L', (set, set, ...))  a list built here, by position        ('L*', set)  a list built by a comprehension        ('D',) a dict built here
+#   ('c', repr)  a constant            ('b',)  a computed boolean / number            ('?',)  unknown
+
+Desc = Tuple
+
+
+class _Vals:
+    """Flow-insensitive evaluation of expressions of one function to value descriptors."""
+
+    def __init__(self, fn: pf.FuncDef, spec: str, stored: Optional[List[Dict[int, frozenset]]] = None):
+        self.fn, self.spec, self.stored = fn, spec, stored
+        self.asg = pf.assignments(fn)
+        self.memo: Dict[str, frozenset] = {}
+        self.busy: set = set()
+
+    def name(self, nme: str, env: Dict[str, frozenset]) -> frozenset:
+        if nme in env:
+            return env[nme]
+        if nme == self.spec:
+            return frozenset({('spec',)})
+        if nme in self.memo:
+            return self.memo[nme]
+        if nme in self.busy:
+            return frozenset()
+        self.busy.add(nme)
+        out: set = set()
+        defs = self.asg.get(nme)
+        if not defs:
+            out.add(('?',))
+        for d in defs or []:
+            if isinstance(d, (ast.For, ast.AsyncFor, ast.comprehension)):
+                out |= self.elems(self.ev(d.iter, env)) if isinstance(d.target, ast.Name) else {('?',)}
+            elif isinstance(d, ast.expr):
+                out |= self.ev(d, env)
+            else:
+                out.add(('?',))
+        self.busy.discard(nme)
+        self.memo[nme] = frozenset(out)
+        return self.memo[nme]
+
+    def elems(self, ds: frozenset) -> set:
+        out: set = set()
+        for d in ds:
+            if d[0] == 'f':
+                out.add(d + ('[]',))
+            elif d[0] == 'L':
+                for e in d[1]:
+                    out |= e
+            elif d[0] == 'L*':
+                out |= d[1]
+            elif d[0] == 'c':
+                continue
+            else:
+                out.add(('?',))
+        return out
+
+    def key(self, ds: frozenset, k: str) -> set:
+        out: set = set()
+        for d in ds:
+            if d[0] == 'spec':
+                out.add(('f', k))
+            elif d[0] == 'f':
+                out.add(d + (k,))
+            elif d[0] in ('D', 'c'):
+                out.add(('c', 'None'))
+            else:
+                out.add(('?',))
+        return out
+
+    def ev(self, e: ast.AST, env: Dict[str, frozenset]) -> frozenset:
+        e = cf.unroll_literal_comprehension(e)
+        if isinstance(e, ast.Name):
+            return self.name(e.id, env)
+        if isinstance(e, ast.Constant):
+            return frozenset({('c', repr(e.value))})
+        if isinstance(e, ast.Call):
+            f = e.func
+            if isinstance(f, ast.Name) and f.id in ('int', 'bool') and len(e.args) == 1:
+                return self.ev(e.args[0], env)
+            if isinstance(f, ast.Name) and f.id in ('list', 'tuple', 'sorted') and len(e.args) == 1:
+                return self.ev(e.args[0], env)
+            if isinstance(f, ast.Attribute) and f.attr == 'get' and e.args:
+                k = pf.const_str(e.args[0])
+                base = self.ev(f.value, env)
+                out = self.key(base, k) if k is not None else {('?',)}
+                if len(e.args) > 1:
+                    out |= self.ev(e.args[1], env)
+                return frozenset(out)
+            if isinstance(f, ast.Name) and f.id in ('len', 'isinstance', 'all', 'any'):
+                return frozenset({('b',)})
+            return frozenset({('?',)})
+        if isinstance(e, ast.Subscript):
+            base = self.ev(e.value, env)
+            k = pf.const_str(e.slice)
+            if k is not None:
+                return frozenset(self.key(base, k))
+            if isinstance(e.slice, ast.Constant) and isinstance(e.slice.value, int):
+                i = e.slice.value
+                out: set = set()
+                for d in base:
+                    if d[0] == 'spec' and self.stored is not None:
+                        for lst in self.stored:
+                            out |= lst.get(i, frozenset())
+                    elif d[0] == 'L':
+                        out |= d[1][i] if -len(d[1]) <= i < len(d[1]) else set()
+                    elif d[0] == 'L*':
+                        out |= d[1]
+                    elif d[0] == 'c':
+                        continue
+                    else:
+                        out.add(('?',))
+                return frozenset(out)
+            return frozenset(self.elems(base))
+        if isinstance(e, (ast.List, ast.Tuple)):
+            return frozenset({('L', tuple(self.ev(x, env) for x in e.elts))})
+        if isinstance(e, ast.Dict):
+            return frozenset({('D',)})
+        if isinstance(e, (ast.ListComp, ast.GeneratorExp, ast.SetComp)):
+            env2 = dict(env)
+            for g in e.generators:
+                it = self.ev(g.iter, env2)
+                if isinstance(g.target, ast.Name):
+                    env2[g.target.id] = frozenset(self.elems(it))
+                else:
+                    for x in ast.walk(g.target):
+                        if isinstance(x, ast.Name):
+                            env2[x.id] = frozenset({('?',)})
+            return frozenset({('L*', self.ev(e.elt, env2))})
+        if isinstance(e, ast.BoolOp):
+            out2: set = set()
+            for v in e.values:
+                out2 |= self.ev(v, env)
+            return frozenset(out2)
+        if isinstance(e, ast.IfExp):
+            return self.ev(e.body, env) | self.ev(e.orelse, env)
+        if isinstance(e, (ast.Compare, ast.UnaryOp, ast.BinOp)):
+            return frozenset({('b',)})
+        return frozenset({('?',)})
+
+
+def _const_truth(e: ast.AST) -> Optional[bool]:
+    if isinstance(e, ast.Constant):
+        return bool(e.value)
+    if isinstance(e, (ast.List, ast.Tuple, ast.Dict, ast.Set)):
+        return bool(e.elts if not isinstance(e, ast.Dict) else e.keys)
+    return None
+
+
+def _truth_leaves(e: ast.AST, env: Dict[str, frozenset], V: _Vals, out: List[Tuple[ast.AST, frozenset, str]], how: str = '') -> None:
+    """Sub-expressions of a tested expression whose TRUTHINESS decides the test, with their value descriptors."""
+    if isinstance(e, ast.BoolOp):
+        for v in e.values:
+            _truth_leaves(v, env, V, out, how)
+    elif isinstance(e, ast.UnaryOp) and isinstance(e.op, ast.Not):
+        _truth_leaves(e.operand, env, V, out, how)
+    elif isinstance(e, ast.Call) and isinstance(e.func, ast.Name) and e.func.id == 'bool' and len(e.args) == 1:
+        _truth_leaves(e.args[0], env, V, out, how)
+    elif isinstance(e, ast.Call) and isinstance(e.func, ast.Name) and e.func.id in ('all', 'any') and len(e.args) == 1:
+        a = cf.unroll_literal_comprehension(e.args[0])
+        h = f'{e.func.id}(...) over '
+        if isinstance(a, (ast.GeneratorExp, ast.ListComp)):
+            env2 = dict(env)
+            for g in a.generators:
+                if isinstance(g.target, ast.Name):
+                    env2[g.target.id] = frozenset(V.elems(V.ev(g.iter, env2)))
+                for c in g.ifs:
+                    _truth_leaves(c, env2, V, out, how)
+            _truth_leaves(a.elt, env2, V, out, h)
+        elif isinstance(a, (ast.List, ast.Tuple)):
+            for x in a.elts:
+                _truth_leaves(x, env, V, out, h)
+        else:
+            out.append((a, frozenset(V.elems(V.ev(a, env))), h + 'the elements of '))
+    elif isinstance(e, ast.NamedExpr):
+        _truth_leaves(e.value, env, V, out, how)
+    elif isinstance(e, (ast.Compare, ast.Constant)):
+        # presence tests (`is not None`, `in`) and comparisons yield computed booleans: recorded as presence instances by the caller
+        if isinstance(e, ast.Compare) and len(e.ops) == 1 and isinstance(e.ops[0], (ast.Is, ast.IsNot, ast.In, ast.NotIn)):
+            tgt = e.left if isinstance(e.ops[0], (ast.Is, ast.IsNot)) else e.comparators[0]
+            ds = V.ev(tgt, env)
+            if any(d[0] in ('f', 'L', 'L*') for d in ds):
+                out.append((e, frozenset({('presence',)}), how))
+    else:
+        out.append((e, V.ev(e, env), how))
+
+
+def _truth_tests(fn: pf.FuncDef, V: _Vals) -> List[Tuple[ast.AST, frozenset, str, int]]:
+    """Every place in fn where the truthiness of a value is consulted: if/while/conditional-expression/assert tests, comprehension filters,
+    non-final operands of and/or.  Value-preserving coercions are not tests: `1 if x else 0`, `x or <falsy constant>`."""
+    out: List[Tuple[ast.AST, frozenset, str, int]] = []
+    tested: set = set()
+
+    def add(e: ast.AST, env: Dict[str, frozenset]) -> None:
+        if id(e) in tested:
+            return
+        tested.add(id(e))
+        acc: List[Tuple[ast.AST, frozenset, str]] = []
+        _truth_leaves(e, env, V, acc)
+        for x, ds, how in acc:
+            out.append((x, ds, how, getattr(x, 'lineno', getattr(e, 'lineno', 0))))
+
+    def comp_env(node: ast.AST, env: Dict[str, frozenset]) -> Dict[str, frozenset]:
+        env2 = dict(env)
+        for g in node.generators:  # type: ignore[attr-defined]
+            if isinstance(g.target, ast.Name):
+                env2[g.target.id] = frozenset(V.elems(V.ev(g.iter, env2)))
+        return env2
+
+    def walk(n: ast.AST, env: Dict[str, frozenset]) -> None:
+        if isinstance(n, (ast.FunctionDef, ast.AsyncFunctionDef, ast.Lambda, ast.ClassDef)) and n is not fn:
+            return
+        if isinstance(n, (ast.If, ast.While, ast.Assert)):
+            add(n.test, env)
+        elif isinstance(n, ast.IfExp):
+            tb, fb = _const_truth(n.body), _const_truth(n.orelse)
+            if not (tb is True and fb is False):
+                add(n.test, env)
+            else:
+                tested.add(id(n.test))
+        elif isinstance(n, ast.BoolOp):
+            last = n.values[-1]
+            harmless_default = isinstance(n.op, ast.Or) and _const_truth(last) is False
+            if id(n) not in tested and not harmless_default:
+                for v in n.values[:-1]:
+                    add(v, env)
+        elif isinstance(n, (ast.ListComp, ast.GeneratorExp, ast.SetComp, ast.DictComp)):
+            env = comp_env(n, env)
+            for g in n.generators:
+                for c in g.ifs:
+                    add(c, env)
+        for c in ast.iter_child_nodes(n):
+            walk(c, env)
+    walk(fn, {})
+    return out
+
+
+def _field_verdict(schema: 'cf.Schema', d: Desc) -> Tuple[str, str]:
+    """('flag', why) | ('ok', why) | ('unknown', why) for testing the truthiness of a value described by d."""
+    if d[0] in ('c', 'b', 'spec', 'D', 'presence'):
+        return 'ok', d[0]
+    if d[0] == 'L':
+        return 'ok', 'non-empty list literal' if d[1] else 'empty list'
+    if d[0] == 'L*':
+        return 'ok', 'rebuilt list (empty iff its source is)'
+    if d[0] != 'f':
+        return 'unknown', 'value not recognised'
+    path = d[1:]
+    name = '.'.join(path).replace('.[]', '[]')
+    sc = cf.field_schema(schema, path)
+    if sc is None:
+        return 'unknown', f'the domain of `{name}` is not given by the validator'
+    if sc.falsy is None:
+        return 'ok', f'`{name}` is never falsy ({sc.origin})'
+    if sc.falsy == 'unknown':
+        return 'unknown', f'cannot tell whether `{name}` ({sc.origin}) can be falsy'
+    req = cf.field_required(schema, path)
+    if sc.kind in ('str', 'list', 'dict') and req is False:
+        return 'ok', f'optional {sc.kind} `{name}`: empty is read as absent'
+    return 'flag', f'`{name}` ({sc.origin}) can legitimately be {sc.falsy}'
+
+
+def _check_truthiness(ctx: Ctx, m: pf.Module, current: int) -> None:
+    """R5: in the writer and the readers, a value whose domain contains a legitimate falsy value (False, 0, '' of a required string) must be tested for
+    PRESENCE (`is not None`, `in`), never for truthiness, and an absent field must not be replaced by a truthy default."""
+    schema = cf.job_schema()
+    w = m.func(f'{CLS}.db_spec')
+    spec = [a.arg for a in w.args.args][1]
+    VW = _Vals(w, spec)
+    # what the writer stores at each position of the compact list(s)
+    stored: List[Dict[int, frozenset]] = []
+    for n in pf.walk_shallow(w):
+        if isinstance(n, ast.Return) and isinstance(n.value, ast.List):
+            stored.append({i: VW.ev(e, {}) for i, e in enumerate(n.value.elts)})
+    ctx.need(stored, 'db_spec: no compact list is returned')
+    fns = [('db_spec', w, VW)]
+    undecided: List[str] = []
+    for rname in READERS:
+        r = m.func(f'{CLS}.{rname}')
+        fns.append((rname, r, _Vals(r, [a.arg for a in r.args.args][1], stored)))
+    for fname, fn, V in fns:
+        for e, ds, how, line in _truth_tests(fn, V):
+            cons = f'{F}::{CLS}.{fname}::truth test `{short(pf.nsrc(e), 60)}`'
+            verdicts = [(_field_verdict(schema, d), d) for d in sorted(ds, key=repr)]
+            flags = [(v, d) for v, d in verdicts if v[0] == 'flag']
+            unknown = [(v, d) for v, d in verdicts if v[0] == 'unknown']
+            if flags:
+                why = '; '.join(sorted({v[1] for v, _ in flags}))
+                tag = '.'.join(flags[0][1][1:]).replace('.[]', '[]')
+                ctx.bad('R5', cons, f'`{short(pf.nsrc(e), 60)}` is tested for truthiness ({how}its value), but {why}: a job spec carrying that legitimate value takes the "absent" branch, so '
+                        + ('what db_spec stores' if fname == 'db_spec' else f'what {fname} returns') + f' for `{tag}` differs from what was submitted (test presence: `is not None`)',
+                        m.path, line, extra={'values': [repr(d) for _, d in flags]})
+            elif unknown and spec_related(fn, V, e):
+                undecided.append(f'{cons}: {unknown[0][0][1]}')
+            elif any(d[0] in ('f', 'L', 'L*', 'presence') for d in ds):
+                ctx.ok('R5', cons, sorted({v[1] for v, _ in verdicts}))
+    # absent field replaced by a truthy default on its way into / out of the stored form
+    for fname, fn, V in fns:
+        outs: List[ast.AST] = []
+        for n in pf.walk_shallow(fn):
+            if isinstance(n, ast.Return) and n.value is not None:
+                outs.append(n.value)
+                # every local the returned value is computed from
+                for nme in sorted(cf.depends_on(fn, n.value)):
+                    outs += [d for d in V.asg.get(nme, []) if isinstance(d, ast.expr)]
+        seen_b: set = set()
+        for o in outs:
+            for b in ast.walk(o):
+                if id(b) in seen_b:
+                    continue
+                seen_b.add(id(b))
+                if isinstance(b, ast.BoolOp) and isinstance(b.op, ast.Or) and _const_truth(b.values[-1]) is True:
+                    ds = frozenset().union(*[V.ev(v, {}) for v in b.values[:-1]])
+                    live = [d for d in ds if d[0] == 'f' and not (cf.field_required(schema, d[1:]) is True and (sc_ := cf.field_schema(schema, d[1:])) is not None and sc_.falsy is None)]
+                    if live:
+                        fields = sorted('.'.join(d[1:]).replace('.[]', '[]') for d in live)
+                        ctx.bad('R5', f'{F}::{CLS}.{fname}::default `{short(pf.nsrc(b), 60)}`', f'`{short(pf.nsrc(b), 60)}` substitutes the truthy default `{pf.nsrc(b.values[-1])}` when '
+                                f'{fields[0]} is absent (or falsy): a job submitted without it is read back WITH that value', m.path, b.lineno)
+    if undecided:
+        raise AnalysisError(undecided[0])
+
+
+def spec_related(fn: pf.FuncDef, V: _Vals, e: ast.AST) -> bool:
+    return V.spec in cf.depends_on(fn, e)
 
 
 def run(ctx: Ctx) -> None:
@@ -539,7 +1180,10 @@ def run(ctx: Ctx) -> None:
     ctx.rule('R1', 'for every format version each reader reads the position/key at which db_spec stores the like-named field', 5)
     ctx.rule('R2', 'inner records (secret, service account, machine spec): writer index<-key and reader key<-index agree in both directions', 3)
     ctx.rule('R3', 'no reader answers a constant for a version for which the field is not stored (field lost)', 5)
-    ctx.rule('R4', 'region bit set: same linear shift in writer and reader, OR accumulation, bits within [0,62], one-bit mask, names returned under the test', 7)
+    ctx.rule('R5', 'presence, not truthiness: no field value that can legitimately be falsy (False / 0 / empty required string, per the job validator and the front end) '
+                   'is truth-tested in the writer or a reader, and no absent field is replaced by a truthy default', 6)
+    ctx.rule('R4', 'region bit set: same linear shift in writer and reader, idempotent accumulation (or: provably distinct terms), bits within [0,62], one-bit mask, '
+                   'names returned under the test, every known region tested', 8)
     ctx.assume('region ids are >= 1 (AUTO_INCREMENT) and the column is a signed BIGINT')
     ctx.assume('batches keep the format version they were created with; updates of a batch use that stored version (front_end._create_jobs)')
     m = pf.load(F)
@@ -554,6 +1198,18 @@ def run(ctx: Ctx) -> None:
             for x in (n.left, n.comparators[0]):
                 if isinstance(x, ast.Constant) and isinstance(x.value, int):
                     ctx.need(x.value <= current + 1, f'version guard `{pf.nsrc(n)}` mentions a version beyond BATCH_FORMAT_VERSION={current}')
+    # analyse the writer and the readers with their same-class helper methods inlined (a block extracted into `self._machine_spec(...)`)
+    n_inl = 0
+    for target in ['db_spec'] + list(READERS):
+        try:
+            m2, il = inline_methods(m, CLS, target, exclude=tuple(['db_spec'] + list(READERS)))
+        except AnalysisError:
+            continue
+        if il.inlined:
+            m, n_inl = m2, n_inl + len(il.inlined)
+    if n_inl:
+        ctx.unit('helpers_inlined', n_inl)
     _check_positions(ctx, m, current)
+    _check_truthiness(ctx, m, current)
     _check_records(ctx, m, current)
     _check_regions(ctx)
